@@ -110,6 +110,9 @@ def scenario_family(rng, tier, *, nested=True, flat=True, callbacks=True, depth=
             names = [d["name"] for d in S.devices(scn)]
             times = rs.sample(range(1, 14), rs.randrange(1, 4))
             scn["stims"] = sorted([{"real": k * 900_000 + 111, "comp": rs.choice(names)} for k in times], key=lambda x: x["real"])
+        if callbacks and rs.random() < 0.2 and scn.get("speed", [1, 1]) == [1, 1]:
+            # the same shapes at the scale of seconds / minutes / hours of simulated time with wakeups a few ns apart
+            scn = S.rescale_times(scn, rs.choice((1_000, 60_000, 3_600_000)), rs)
         if rs.random() < 0.15:
             scn = S.tricky_rename(scn, rs)   # confusable component names (case, punctuation, affixes of topic names)
         out.append(scn)
@@ -135,6 +138,7 @@ def stats_into(res, scn):
     res.count(f"devices={st['devices']}")
     res.count(f"depth={st['depth']}")
     res.count(f"systems={min(st['systems'], 3)}")
+    res.count(f"time_scale={scn.get('time_scale', 1)}")
 
 
 def dfs_orders(scn, limit, run_kwargs=None):
